@@ -924,6 +924,47 @@ func checkEmitterNaming(c *Ctx, rule string, e *core.Func, trim, idFunc, cbName 
 		c.R.Checkf(rule, "single-set-outbound@"+short, c.pos(e.Pos()), ok, "%s emits one match set carrying the callback's name (%s) unchanged", short, cbName)
 		return 1
 	}
+	// the values lowered are the values of the condition: the ranged slice is the parameter, and the parameter is
+	// never replaced (only by the reviewed canonicalisation of prefix sets, which keeps the set of addresses)
+	if id, isId := rs.X.(*ast.Ident); isId {
+		obj := info.ObjectOf(id)
+		_, isParam := paramIndex(e, obj)
+		okVals, why := isParam, ""
+		if !isParam {
+			why = "the ranged slice is not the emitter's parameter"
+		}
+		ast.Inspect(e.Body, func(m ast.Node) bool {
+			as, ok := m.(*ast.AssignStmt)
+			if !ok {
+				return true
+			}
+			for i, l := range as.Lhs {
+				lid, ok := ast.Unparen(l).(*ast.Ident)
+				if !ok || info.ObjectOf(lid) != obj {
+					continue
+				}
+				reviewed := false
+				if len(as.Rhs) == len(as.Lhs) {
+					if cl, ok := ast.Unparen(as.Rhs[i]).(*ast.CallExpr); ok {
+						if cal := core.Callee(info, cl); cal != nil && cal.Name() == "canonicalizePrefixes" {
+							reviewed = true
+						}
+					}
+				}
+				if !reviewed {
+					okVals = false
+					why = "the parameter is replaced by " + core.ExprStr(as.Rhs[len(as.Rhs)-1]) + " before it is lowered"
+				}
+			}
+			return true
+		})
+		c.R.Checkf(rule, "lowered-values-are-the-conditions-values@"+short, c.pos(rs.Pos()), okVals, "%s lowers exactly the values it is given, one match set per value (a rewritten list — merged, filtered or re-sorted ranges — changes which packets the condition matches)%s", short, func() string {
+			if why == "" {
+				return ""
+			}
+			return " — " + why
+		}())
+	}
 	eg := e.Graph()
 	var body *cfg.Block
 	heads := map[*cfg.Block]bool{}
@@ -1021,4 +1062,22 @@ func checkEmitterNaming(c *Ctx, rule string, e *core.Func, trim, idFunc, cbName 
 	}
 	c.R.Checkf(rule, "multi-value-outbound@"+short, c.pos(rs.Pos()), okAll, "%s names every value's match set OR except the last, which carries the callback's name%s", short, detail)
 	return 1
+}
+
+
+// paramIndex returns the index of obj among the function's parameters.
+func paramIndex(f *core.Func, obj types.Object) (int, bool) {
+	if f.Type == nil || f.Type.Params == nil || obj == nil {
+		return 0, false
+	}
+	i := 0
+	for _, fld := range f.Type.Params.List {
+		for _, nm := range fld.Names {
+			if f.Info().ObjectOf(nm) == obj {
+				return i, true
+			}
+			i++
+		}
+	}
+	return 0, false
 }
